@@ -1,5 +1,7 @@
 import StrandModel.Lemmas.NatLawful
 import StrandModel.Generated.Constants
+import StrandModel.Props.ParamSets
+import StrandModel.Props.Ristretto
 /-
 C15 — every back-end obeys the group / exponent laws; the multiplicative back-ends are
 lawful for every safe-prime parameter set; the built-in constants satisfy the decidable part
@@ -175,6 +177,30 @@ theorem builtin_safe_prime_group (hp : Nat.Prime Generated.P) (hq : Nat.Prime Ge
   g_gt := builtin_g_range.1
   g_lt := builtin_g_range.2
   g_order := builtin_g_order
+
+
+/-! ### the parameter sets the correspondence harness runs on, and the Ristretto back-end -/
+
+/-- every small and the 62-bit parameter set of the harness IS a safe-prime group (primality of the
+    62-bit p and q by Pratt certificates, `Lemmas/PrattCerts.lean`): on these sets every theorem
+    about the multiplicative back-ends applies without any unproved hypothesis -/
+theorem harness_parameter_sets_safe : ∀ P ∈ ParamSets.all, SafePrimeGroup P := ParamSets.all_safe
+
+theorem harness_parameter_sets_lawful (fl : Flavour) :
+    ∀ P ∈ ParamSets.all, Nonempty (Lawful (natOps P fl) P.q (NatA P)) := ParamSets.all_lawful fl
+
+/-- the order of the Ristretto group is prime (Pratt certificate, kernel-checked) -/
+theorem ristretto_order_prime : Nat.Prime R255.ell := RistrettoReduction.ell_prime
+
+/-- the exponent ring of the Ristretto model is `ZMod ℓ`: proved, not assumed -/
+theorem ristretto_exponent_ring :
+    ∃ X : LawfulExp ristrettoOps R255.ell, (∀ x, X.dx x = (x : ZMod R255.ell)) ∧
+      (∀ x, X.xcanon x ↔ x < R255.ell) := RistrettoReduction.ristretto_exponent_ring_lawful
+
+/-- for Ristretto ONLY the curve-group half of the specification remains an assumption -/
+theorem ristretto_only_group_half_assumed {A : Type} [AddCommGroup A] [Module (ZMod R255.ell) A]
+    (G : LawfulGrp ristrettoOps R255.ell A ristrettoLawfulExp.dx) :
+    Nonempty (Lawful ristrettoOps R255.ell A) := ristretto_reduction G
 
 /-! ### non-vacuity -/
 def P23 : Params := ⟨23, 11, 2, 2⟩
